@@ -228,6 +228,13 @@ func extNewTimer(fr *frame, a []value) value {
 	i := fr.i
 	i.chanSeq++
 	ch := &channel{cap: 1, id: i.chanSeq}
+	if i.manualTimers {
+		// the harness controls time: the timer stays pending until the harness advances time
+		// (verifAdvanceTime); natively that is a sleep longer than the timer
+		i.pendingTimers = append(i.pendingTimers, ch)
+		var cell value = structure{ch, false}
+		return &cell
+	}
 	ch.buf = append(ch.buf, extTimeNow(fr, nil))
 	// type Timer struct { C <-chan Time; initTimer bool }
 	var cell value = structure{ch, false}
